@@ -30,7 +30,7 @@ RULE = ('one evaluation = one seeded run: a sequence of 10-80 calls f(*args, **k
 RULE += ' ' + 'The argument alphabet includes long (2 KB) str / bytes arguments in pairs that agree in length, first and last kilobyte, byte sum and Adler-32.'
 ASSUMPTIONS = ['the probe function ignores the arguments listed in `ignore` (a function whose result depends on ignored arguments is outside the contract)',
                'without typed=True, numerically equal arguments (1, 1.0, True) may or may not share an entry; results are compared with ==']
-PROBES = ('hits', 'expired_recompute', 'stampede_threads', 'typed_runs', 'ignore_runs', 'functions', 'raising_calls', 'falsy_results', 'keys_compared_across_interpreters')
+PROBES = ('hits', 'expired_recompute', 'stampede_threads', 'typed_runs', 'ignore_runs', 'functions', 'raising_calls', 'falsy_results', 'keys_compared_across_interpreters', 'identity_pairs')
 TECHNIQUE = 'deterministic simulation (virtual clock for expiry, seeded scheduler and random() for memoize_stampede) + differential checking against the undecorated function with an execution counter'
 LEVEL_TEXT = ('seeded exploration of call-signature sequences x decorator options under a controlled clock; key collisions show up as '
               'wrong results because the probe function encodes its call signature in its result; stampede recomputation is explored '
@@ -80,6 +80,11 @@ def gen_case(seed, tier):
             calls.append({'args': [rng.choice(ALPHA) for _ in range(rng.randint(0, 2))], 'kwargs': {n: rng.choice(ALPHA) for n in names}})
         return {'seed': seed, 'cfg': {'wrap': 'xproc', 'ignore': rng.choice(([], [0], ['a'], ['q', 'zeta'])),
                                       'hashseeds': rng.sample(range(1, 1000), 2)}, 'calls': calls, 'prog': []}
+    if seed % 97 == 14:
+        # the same arguments, once as one object passed twice and once as two equal objects
+        return {'seed': seed, 'cfg': {'wrap': 'identity', 'target': rng.choice(('cache', 'fanout', 'index')), 'typed': rng.random() < 0.5,
+                                      'member': rng.choice(('lang-en', {'b': '6b65792d31'}, {'t': [1, 'x']})),
+                                      'first': rng.choice(('same', 'dist')), 'how': rng.choice(('args', 'kwargs'))}, 'calls': [], 'prog': []}
     stampede = rng.random() < 0.2
     ignore = rng.choice(([], [], [], [0], [1], ['a'], [0, 'x'], [0, 2], [0, 1], [1, 2], [0, 2, 'a']))
     cfg = {'dj_version': rng.choice((None, None, 2, 7)),      # DjangoCache.memoize(version=...): lookups and stores under that version
@@ -509,9 +514,55 @@ def run_xproc(case):
             'virtual_s': 0.0, 'nontrivial': True, 'outcome': {'keys': n}}
 
 
+def run_identity(case):
+    """f(x, x) with one object in both places, then f(y, z) with equal but distinct objects (and the other way round): the same
+    arguments, so the second call is served from the cache."""
+    cfg = case['cfg']
+    violations = []
+    world = World(case['seed'], clock={'mode': 'frozen'}, yield_clock=False)
+    try:
+        dc = world.dc
+        if cfg['target'] == 'fanout':
+            store = dc.FanoutCache(world.path('f'), shards=3)
+        elif cfg['target'] == 'index':
+            store = dc.Index(world.path('i'))
+        else:
+            store = dc.Cache(world.path('c'))
+        ran = []
+
+        def fn(*args, **kwargs):
+            ran.append(1)
+            return ('result', args, sorted(kwargs.items()))
+        wrapped = store.memoize(typed=cfg['typed'])(fn)
+        first, second = cfg['first'], ('dist' if cfg['first'] == 'same' else 'same')
+        a1 = vals.dec({first: [cfg['member'], 2]})
+        a2 = vals.dec({second: [cfg['member'], 2]})
+        if cfg['how'] == 'kwargs':
+            r1 = wrapped(a1[0], b=a1[1])
+            r2 = wrapped(a2[0], b=a2[1])
+        else:
+            r1 = wrapped(*a1)
+            r2 = wrapped(*a2)
+        if r1 != r2:
+            violations.append({'rule': 'C16/wrong-result', 'sig': 'identity', 'detail': '%r != %r' % (r1, r2)})
+        elif len(ran) != 1:
+            violations.append({'rule': 'C16/function-rerun-within-expiry', 'sig': 'arguments-one-object-vs-equal-objects',
+                               'detail': 'f(%r, %r) with %s, then with %s: the function ran %d times for two calls with the same arguments'
+                                         % (a1[0], a1[1], 'one object in both places' if first == 'same' else 'two equal objects',
+                                            'two equal objects' if first == 'same' else 'one object in both places', len(ran))})
+        (getattr(store, 'close', None) or store.cache.close)()
+    finally:
+        world.close()
+    digest = hashlib.sha256(json.dumps(case['cfg'], sort_keys=True).encode()).hexdigest()
+    return {'violations': violations, 'digest': digest, 'steps': 2, 'switches': 0, 'fired': {}, 'probes': {'identity_pairs': 1},
+            'virtual_s': 0.0, 'nontrivial': True, 'outcome': {'calls': 2}}
+
+
 def run_case(case):
     if case['cfg']['wrap'] == 'xproc':
         return run_xproc(case)
+    if case['cfg']['wrap'] == 'identity':
+        return run_identity(case)
     if case['cfg']['wrap'] == 'stampede':
         return run_stampede(case)
     return run_seq(case)
